@@ -16,13 +16,70 @@ enum Method {
 
 fn call(m: Method, kind: Kind, level: f64, n: usize, k: usize) -> Option<(f64, f64)> {
     let c = conf(kind, level);
-    let r = match m {
+    // (a panic, e.g. an integer overflow on huge counts, is "not an interval")
+    let r = mc::catch(std::panic::AssertUnwindSafe(|| match m {
         Method::Wilson => proportion::ci(c, n, k),
         Method::Wald => proportion::ci_z_normal(c, n, k),
-    };
+    }));
     match r {
-        Ok(Interval::TwoSided(a, b)) => Some((a, b)),
+        Ok(Ok(Interval::TwoSided(a, b))) => Some((a, b)),
         _ => None,
+    }
+}
+
+/// huge multipliers (the property quantifies over all m): the same proportion on populations
+/// up to 600 * 2^40; checked for a few base populations, every admissible k
+const BIG_MULTS: [usize; 3] = [1 << 20, 1 << 31, 1 << 40];
+const BIG_BASES: [usize; 6] = [4, 5, 20, 64, 100, 600];
+
+fn judge_big(m: Method, n: usize, levels: &[f64], s: &mut Sink) {
+    for k in (0..=n).filter(|&k| admissible(m, n, k)) {
+        for kind in KINDS {
+            for &l in levels {
+                let Some(b) = call(m, kind, l, n, k) else { continue };
+                let case = |what: &str| json!({"m":m,"n":n,"k":k,"kind":kind,"level":l,"relation":what});
+                let mut prev = b;
+                let mut prev_n = n;
+                for mu in BIG_MULTS {
+                    s.evals += 1;
+                    s.calls += 2;
+                    let (bn, bk) = (mu * n, mu * k);
+                    let Some(b2) = call(m, kind, l, bn, bk) else {
+                        s.violation(format!("{m:?}/multiple-not-Ok"), format!("({bn}, {bk}) {} {l}: no interval (error or panic)", kind.name()), case("big-shrink"));
+                        break;
+                    };
+                    s.outcome(&(m, "big", kind, mu));
+                    // narrower than the previous population (two-sided: all levels; one-sided: levels > 1/2)
+                    if kind == Kind::Two || l > 0.5 {
+                        let narrower = match kind {
+                            Kind::Two => b2.1 - b2.0 < prev.1 - prev.0,
+                            Kind::Upper => b2.0 > prev.0,
+                            Kind::Lower => b2.1 < prev.1,
+                        };
+                        if !narrower {
+                            s.violation(format!("{m:?}/not-narrower-with-n/{}", kind.name()), format!("{} {l}: (n,k)=({prev_n},{}) gives [{}, {}], ({bn},{bk}) gives [{}, {}]", kind.name(), prev_n / n * k, prev.0, prev.1, b2.0, b2.1), case("big-shrink"));
+                        }
+                    }
+                    // mirror image at the big population
+                    if let Some(mb) = call(m, kind.flipped(), l, bn, bn - bk) {
+                        let (elo, ehi) = (1.0 - mb.1, 1.0 - mb.0);
+                        if !((b2.0 - elo).abs() <= 1.6e-15 && (b2.1 - ehi).abs() <= 1.6e-15) {
+                            s.violation(format!("{m:?}/not-mirror-symmetric/{}", kind.name()), format!("n={bn} k={bk} {} {l}: [{}, {}] vs 1 - interval(n-k, flipped kind) = [{elo}, {ehi}]", kind.name(), b2.0, b2.1), case("big-mirror"));
+                        }
+                    } else {
+                        s.violation(format!("{m:?}/multiple-not-Ok"), format!("({bn}, {}) {} {l}: no interval (error or panic)", bn - bk, kind.flipped().name()), case("big-mirror"));
+                    }
+                    if m == Method::Wilson {
+                        let phat = k as f64 / n as f64;
+                        if !(0.0 <= b2.0 && b2.0 <= b2.1 && b2.1 <= 1.0) || (kind == Kind::Two && !(b2.0 <= phat + 1e-15 && phat - 1e-15 <= b2.1)) {
+                            s.violation("Wilson/outside-unit-interval", format!("n={bn} k={bk} {} {l}: [{}, {}]", kind.name(), b2.0, b2.1), case("big-unit"));
+                        }
+                    }
+                    prev = b2;
+                    prev_n = bn;
+                }
+            }
+        }
     }
 }
 
@@ -161,13 +218,20 @@ fn run(tier: Tier) -> Sink {
         }
     }
     jobs.reverse(); // big ones first for load balance
-    par_judge(&jobs, |&(m, n), s| judge_n(m, n, &levels, s))
+    let mut s = par_judge(&jobs, |&(m, n), s| judge_n(m, n, &levels, s));
+    let big: Vec<(Method, usize)> = BIG_BASES.iter().flat_map(|&n| [(Method::Wilson, n), (Method::Wald, n)]).collect();
+    let b = par_judge(&big, |&(m, n), s| judge_big(m, n, &levels, s));
+    s.merge(b)
 }
 
 fn replay_case(case: &Value, s: &mut Sink) {
     let m: Method = serde_json::from_value(case["m"].clone()).unwrap();
     let n = case["n"].as_u64().unwrap() as usize;
     // the relation involves neighbours: re-run the whole row for this n on the full grid
+    if case["relation"].as_str().unwrap_or("").starts_with("big") {
+        judge_big(m, n, &mc::LG, s);
+        return;
+    }
     judge_n(m, n, &mc::LG, s);
 }
 
@@ -181,7 +245,7 @@ fn main() {
     s.sample(json!({"m":"Wilson","n":30,"k":7,"kind":"Upper","level":0.95,"relations":["low(k=7)<=low(k=8)","[lo,1] = 1-[0,hi] of (30,23) Lower","low(0.95) > low(0.975)","low(60,14) > low(30,7)","0<=lo<=1"]}));
     s.sample(json!({"m":"Wald","n":40,"k":20,"kind":"Two","level":0.5,"relations":["mirror","monotone-k","level","shrink with m in {2,3,5,10}"]}));
     s.sample(json!({"m":"Wilson","n":4,"k":2,"kind":"Two","level":0.9999,"relations":["midpoint between k/n and 1/2"]}));
-    rep.rule = format!("every admissible (n,k) (Wilson: 2<=k<=n-2, Wald: 10<=k<=n-10) for n<={} x {} levels x 3 kinds through proportion::ci / ci_z_normal, plus the same proportion at (m n, m k) for m in {{2,3,5,10}}; relations checked between real runs; distinct by (method, kind, k/n<1/2, level>1/2)", tier.pick(600, 2000), mc::levels(tier).len());
+    rep.rule = format!("every admissible (n,k) (Wilson: 2<=k<=n-2, Wald: 10<=k<=n-10) for n<={} x {} levels x 3 kinds through proportion::ci / ci_z_normal, plus the same proportion at (m n, m k) for m in {{2,3,5,10}} and, for n in {{4,5,20,64,100,600}}, at m in {{2^20, 2^31, 2^40}} (chain of strictly narrower intervals, mirror image and [0,1] at the big populations; a panic counts as no interval); relations checked between real runs; distinct by (method, kind, k/n<1/2, level>1/2)", tier.pick(600, 2000), mc::levels(tier).len());
     rep.assume("strict narrowing with n is claimed for two-sided intervals at every level and for one-sided intervals at levels > 1/2 (below 1/2 the finite bound lies beyond k/n and moves towards it, which widens [bound, 1]); those cases are counted as skipped");
     rep.assume("[0,1] and midpoint clauses are asserted for the default (Wilson) interval only; Wald bounds legitimately leave [0,1]");
     rep.require(s.distinct() >= 12, "fewer than 12 distinct classes: vacuous");
